@@ -91,6 +91,41 @@ def beqL : List Node → List Node → Bool
   | _, _ => false
 end
 
+-- equality up to source positions
+mutual
+def eqNS : Node → Node → Bool
+  | atom a, atom b => a == b
+  | arr a, arr b => eqNSL a b
+  | obj n a, obj m b => n == m && eqNSL a b
+  | other k s n a, other k' s' n' a' => k == k' && n == n' && eqNSL a a'
+  | lit k v r s, lit k' v' r' s' => k == k' && v == v' && r == r'
+  | ident n s, ident n' s' => n == n'
+  | pname n s, pname n' s' => n == n'
+  | bin o l r s, bin o' l' r' s' => o == o' && eqNS l l' && eqNS r r'
+  | assign o l r s, assign o' l' r' s' => o == o' && eqNS l l' && eqNS r r'
+  | tpl e q s, tpl e' q' s' => eqNSL e e' && eqNSL q q'
+  | call c a s, call c' a' s' => eqNS c c' && eqNSL a a'
+  | arg sp e, arg sp' e' => sp.isSome == sp'.isSome && eqNS e e'
+  | member o p s, member o' p' s' => eqNS o o' && eqNS p p'
+  | optChain b x s, optChain b' x' s' => b == b' && eqNS x x'
+  | optCall c a s, optCall c' a' s' => eqNS c c' && eqNSL a a'
+  | unary o a s, unary o' a' s' => o == o' && eqNS a a'
+  | arrow p b at' s, arrow p' b' at'' s' => eqNSL p p' && eqNS b b' && at' == at''
+  | paren e s, paren e' s' => eqNS e e'
+  | seq e s, seq e' s' => eqNSL e e'
+  | cond t c a s, cond t' c' a' s' => eqNS t t' && eqNS c c' && eqNS a a'
+  | array e s, array e' s' => eqNSL e e'
+  | block e s, block e' s' => eqNSL e e'
+  | ifStmt t c a s, ifStmt t' c' a' s' => eqNS t t' && eqNS c c' && eqNS a a'
+  | exprStmt e s, exprStmt e' s' => eqNS e e'
+  | _, _ => false
+def eqNSL : List Node → List Node → Bool
+  | [], [] => true
+  | a :: as, b :: bs => eqNS a b && eqNSL as bs
+  | _, _ => false
+end
+
+
 instance : BEq Node := ⟨beq⟩
 
 /-- the span swc's `Spanned` gives an expression -/
@@ -195,6 +230,61 @@ def sizeL : List Node → Nat
   | x :: xs => size x + sizeL xs
 end
 
+/-- immediate children in swc's visit order -/
+def kids : Node → List Node
+  | atom _ => []
+  | arr xs => xs
+  | obj _ vs => vs
+  | other _ _ _ vs => vs
+  | lit .. => []
+  | ident .. => []
+  | pname .. => []
+  | bin _ l r _ => [l, r]
+  | assign _ l r _ => [l, r]
+  | tpl es qs _ => es ++ qs
+  | call c as _ => c :: as
+  | arg _ e => [e]
+  | member o p _ => [o, p]
+  | optChain _ b _ => [b]
+  | optCall c as _ => c :: as
+  | unary _ a _ => [a]
+  | arrow ps b _ _ => ps ++ [b]
+  | paren e _ => [e]
+  | seq es _ => es
+  | cond t c a _ => [t, c, a]
+  | array es _ => es
+  | block ss _ => ss
+  | ifStmt t c a _ => [t, c, a]
+  | exprStmt e _ => [e]
+
+/-- the same node with its children replaced (`ks` is expected to have the length of `n.kids`) -/
+def withKids (n : Node) (ks : List Node) : Node :=
+  match n with
+  | atom s => atom s
+  | arr _ => arr ks
+  | obj ns _ => obj ns ks
+  | other k sp ns _ => other k sp ns ks
+  | lit k v r sp => lit k v r sp
+  | ident nm sp => ident nm sp
+  | pname nm sp => pname nm sp
+  | bin op l r sp => bin op (ks.getD 0 l) (ks.getD 1 r) sp
+  | assign op l r sp => assign op (ks.getD 0 l) (ks.getD 1 r) sp
+  | tpl es _ sp => tpl (ks.take es.length) (ks.drop es.length) sp
+  | call c _ sp => call (ks.getD 0 c) (ks.drop 1) sp
+  | arg s e => arg s (ks.getD 0 e)
+  | member o p sp => member (ks.getD 0 o) (ks.getD 1 p) sp
+  | optChain opt b sp => optChain opt (ks.getD 0 b) sp
+  | optCall c _ sp => optCall (ks.getD 0 c) (ks.drop 1) sp
+  | unary op a sp => unary op (ks.getD 0 a) sp
+  | arrow ps b at' sp => arrow (ks.take ps.length) (ks.getD ps.length b) at' sp
+  | paren e sp => paren (ks.getD 0 e) sp
+  | seq _ sp => seq ks sp
+  | cond t c a sp => cond (ks.getD 0 t) (ks.getD 1 c) (ks.getD 2 a) sp
+  | array _ sp => array ks sp
+  | block _ sp => block ks sp
+  | ifStmt t c a sp => ifStmt (ks.getD 0 t) (ks.getD 1 c) (ks.getD 2 a) sp
+  | exprStmt e sp => exprStmt (ks.getD 0 e) sp
+
 end Node
 
 /-! ### JSON → Node (glue; exercised on every record, size-checked by `Node.size` vs `J` type count) -/
@@ -231,30 +321,30 @@ def nonExprLitField (parentKind field : String) : Bool :=
 
 def droppedKeys : List String := ["ctxt"]
 
-partial def fromJ (pfx : String) (parentKind field : String) (j : J) : Node :=
+partial def fromJ (pfx : String) (parentKind field : String) (j : J) (anySpan : Bool := false) : Node :=
   match j with
   | .null => .atom "null"
   | .bool b => .atom (if b then "true" else "false")
   | .num l => .atom l
   | .str s => .atom (J.escapeString s)
-  | .arr xs => .arr (xs.map (fromJ pfx parentKind field))
+  | .arr xs => .arr (xs.map (fromJ pfx parentKind field · anySpan))
   | .obj kvs =>
     match j.get? "type" with
     | none =>
       -- ExprOrSpread
       if kvs.length == 2 && (j.get? "spread").isSome && (j.get? "expression").isSome then
-        .arg (spanOptOfJ (j.getD "spread")) (fromJ pfx "ExprOrSpread" "expression" (j.getD "expression"))
+        .arg (spanOptOfJ (j.getD "spread")) (fromJ pfx "ExprOrSpread" "expression" (j.getD "expression") anySpan)
       else
         let kvs' := kvs.filter (fun kv => !droppedKeys.contains kv.1)
-        .obj (kvs'.map (·.1)) (kvs'.map fun kv => fromJ pfx "" kv.1 kv.2)
+        .obj (kvs'.map (·.1)) (kvs'.map fun kv => fromJ pfx "" kv.1 kv.2 anySpan)
     | some tj =>
       let kind := tj.strD
       let sp := spanOfJ j
-      let sub (f : String) : Node := fromJ pfx kind f (j.getD f)
-      let subL (f : String) : List Node := (j.getD f).arrD.map (fromJ pfx kind f)
+      let sub (f : String) : Node := fromJ pfx kind f (j.getD f) anySpan
+      let subL (f : String) : List Node := (j.getD f).arrD.map (fromJ pfx kind f · anySpan)
       let generic : Unit → Node := fun _ =>
         let kvs' := kvs.filter (fun kv => kv.1 != "type" && kv.1 != "span" && !droppedKeys.contains kv.1)
-        .other kind sp (kvs'.map (·.1)) (kvs'.map fun kv => fromJ pfx kind kv.1 kv.2)
+        .other kind sp (kvs'.map (·.1)) (kvs'.map fun kv => fromJ pfx kind kv.1 kv.2 anySpan)
       if literalKinds.contains kind then
         if nonExprLitField parentKind field then generic ()
         else if kind == "StringLiteral" then .lit kind (j.getD "value").strD (j.getD "raw").strD sp
@@ -264,7 +354,7 @@ partial def fromJ (pfx : String) (parentKind field : String) (j : J) : Node :=
       else if kind == "Identifier" then
         let v := (j.getD "value").strD
         if (j.get? "ctxt").isSome then
-          match (if sp.isDummy then parseTemp pfx v else none) with
+          match (if sp.isDummy || anySpan then parseTemp pfx v else none) with
           | some n => .ident (.temp n) sp
           | none => .ident (.user v) sp
         else .pname v sp
@@ -295,8 +385,8 @@ partial def fromJ (pfx : String) (parentKind field : String) (j : J) : Node :=
       else generic ()
 
 /-- convert a swc `Program` JSON; `none` when the size check fails (a sub-tree was lost by the glue) -/
-def programFromJ (pfx : String) (j : J) : Except String Node :=
-  let n := fromJ pfx "" "" j
+def programFromJ (pfx : String) (j : J) (anySpan : Bool := false) : Except String Node :=
+  let n := fromJ pfx "" "" j anySpan
   if n.size == jTypeCount j then .ok n
   else .error s!"conversion size check failed: tree {n.size} vs json {jTypeCount j}"
 
